@@ -206,8 +206,13 @@ func (db *DB) Put(key []byte, value []byte) error {
 	logRecord.Key = key
 	logRecord.Value = append(logRecord.Value, value...)
 
+	// 追加日志与更新索引必须在同一临界区内完成,
+	// 否则并发写入同一 key 时索引的更新顺序可能与日志顺序相反, 重启后得到不同的值
+	db.mu.Lock()
+	defer db.mu.Unlock()
+
 	// 将日志记录追加到当前活跃文件
-	pos, err := db.appendLogRecordWithLock(logRecord)
+	pos, err := db.appendLogRecord(logRecord)
 	if err != nil {
 		return err
 	}
@@ -247,6 +252,11 @@ func (db *DB) Delete(key []byte) error {
 		return ErrKeyIsEmpty
 	}
 
+	// 存在性检查, 追加墓碑值与更新索引必须在同一临界区内完成,
+	// 否则并发删除同一 key 时会返回 ErrIndexUpdateFailed, 并发写入时索引与日志顺序可能不一致
+	db.mu.Lock()
+	defer db.mu.Unlock()
+
 	if pos := db.index.Get(key); pos == nil {
 		return nil
 	}
@@ -258,7 +268,7 @@ func (db *DB) Delete(key []byte) error {
 	logRecord.Key = key
 	logRecord.Type = datafile.LogRecordDeleted
 
-	pos, err := db.appendLogRecordWithLock(logRecord)
+	pos, err := db.appendLogRecord(logRecord)
 	if err != nil {
 		return err
 	}
